@@ -266,4 +266,19 @@ def r01_5_halting(repo: Repo, rep: Report):
     rep.check("R01.5", ok, m, dep[0] if dep else run, "call depth > 1024 -> MessageDepthLimitError", "EVM call depth limit")
 
 
-RULES = [r01_1_dispatch_totality, r01_2_3_arm_semantics, r01_4_modelling_obligations, r01_5_halting]
+def r01_6_shared(repo: Repo, rep: Report):
+    """word semantics wiring (C06) and call/create context (C09) are part of `a reported end state is an EVM end state`"""
+    from hsa.rules.c06 import r06_3_operator_table, r06_5_bool_closedness
+    from hsa.rules.c09 import r09_1_snapshot_restore, r09_2_message_construction, r09_4_value_transfer, r09_5_returndata
+
+    rep.rule("R06.3", "HalmosBitVec methods use their reviewed operators (shared with C06)")
+    rep.rule("R06.5", "unconverted stack items only get Bool-closed operations (shared with C06)")
+    rep.rule("R09.1", "snapshot/restore pairing of sub-frames (shared with C09)")
+    rep.rule("R09.2", "Message construction per call scheme (shared with C09)")
+    rep.rule("R09.4", "value transfer (shared with C09)")
+    rep.rule("R09.5", "returndata (shared with C09)")
+    for f in (r06_3_operator_table, r06_5_bool_closedness, r09_1_snapshot_restore, r09_2_message_construction, r09_4_value_transfer, r09_5_returndata):
+        f(repo, rep)
+
+
+RULES = [r01_1_dispatch_totality, r01_2_3_arm_semantics, r01_4_modelling_obligations, r01_5_halting, r01_6_shared]
